@@ -529,6 +529,7 @@ func CosimWorker(pm *Params) (*Stats, []*Failure) {
 	var fails []*Failure
 	cc := &cosimCounters{finish: map[string]int64{}, probes: map[string]int{}, digest: &Digest{}}
 	prop := pm.Property
+	total := &Digest{}
 	transp = newTranspLogger(pm.TranspOut)
 	defer func() { transp.close(); transp = nil }()
 	for i := pm.From; i < pm.Count; i += pm.Stride {
@@ -546,11 +547,15 @@ func CosimWorker(pm *Params) (*Stats, []*Failure) {
 		p := buildProgram(f, style, layoutSeed, lm)
 		plan := planEnvs(prop, f, runSeed, cfg.Dom, pm.Thorough)
 		cc.rejected = ""
-		cc.digest.Add(fmt.Sprintf("run %d", i))
+		cc.digest = &Digest{}
 		before := cc.evals
 		fail := cosimEval(prop, p, &plan, cc, "")
 		st.Runs++
 		st.Programs++
+		total.Add(cc.digest.Hex())
+		if pm.PerRun {
+			st.PerRun = append(st.PerRun, fmt.Sprintf("%d %s", i, cc.digest.Hex()))
+		}
 		if plan.exhaustive {
 			st.InnerPrograms++
 			st.InnerAssign += cc.evals - before
@@ -594,7 +599,7 @@ func CosimWorker(pm *Params) (*Stats, []*Failure) {
 	for k, v := range cc.probes {
 		st.Probes[k] += int64(v)
 	}
-	st.Digest = cc.digest.Hex()
+	st.Digest = total.Hex()
 	if pm.DistinctOut != "" {
 		writeHashes(pm.DistinctOut, cc.distinct)
 	}
